@@ -262,35 +262,67 @@ def _positive_name_test(test, tok, kind_alias):
     return False
 
 
+def _negative_name_test(test, tok, kind_alias):
+    """Does ``test`` (when FALSE) imply tok's class is Name?  (`not P`, `x is not Name`, `A or B` with one such disjunct)"""
+    if isinstance(test, ast.UnaryOp) and isinstance(test.op, ast.Not):
+        return _positive_name_test(test.operand, tok, kind_alias)
+    if isinstance(test, ast.Compare) and len(test.ops) == 1 and isinstance(test.ops[0], (ast.IsNot, ast.NotEq)):
+        pos = ast.Compare(left=test.left, ops=[ast.Is()], comparators=test.comparators)
+        return _positive_name_test(pos, tok, kind_alias)
+    if isinstance(test, ast.BoolOp) and isinstance(test.op, ast.Or):
+        return any(_negative_name_test(v, tok, kind_alias) for v in test.values)
+    return False
+
+
+def _leaves(stmts):
+    """does the statement list always leave the enclosing block (raise / return / continue / break)?"""
+    if not stmts:
+        return False
+    last = stmts[-1]
+    if isinstance(last, (ast.Raise, ast.Return, ast.Continue, ast.Break)):
+        return True
+    if isinstance(last, ast.If) and last.orelse:
+        return _leaves(last.body) and _leaves(last.orelse)
+    return False
+
+
 def name_guarded(m, cmp_node, tok):
+    """The comparison is evaluated only where the token is known to be a Name: under the true branch of a positive class
+    test, under the false branch of a negative one, after such a test inside an `and` / `or`, or after a guard statement
+    that leaves the block when the token is not a Name (at any nesting level)."""
     if m._toks.get(tok) == "Name":
         return True
+    ka = m._kind_alias
     cur = cmp_node
     while getattr(cur, "_parent", None) is not None:
         par = cur._parent
-        if isinstance(par, ast.BoolOp) and isinstance(par.op, ast.And) and cur in par.values:
+        if isinstance(par, ast.BoolOp) and cur in par.values:
             idx = par.values.index(cur)
-            if any(_positive_name_test(p, tok, m._kind_alias) for p in par.values[:idx]):
+            if isinstance(par.op, ast.And) and any(_positive_name_test(p, tok, ka) for p in par.values[:idx]):
                 return True
-        if isinstance(par, ast.If):
-            if cur in par.body and _positive_name_test(par.test, tok, m._kind_alias):
+            if isinstance(par.op, ast.Or) and any(_negative_name_test(p, tok, ka) for p in par.values[:idx]):
+                return True
+        if isinstance(par, (ast.If, ast.While)):
+            if cur in par.body and _positive_name_test(par.test, tok, ka):
+                return True
+            if cur in par.orelse and _negative_name_test(par.test, tok, ka):
                 return True
         if isinstance(par, ast.IfExp):
-            if cur is par.body and _positive_name_test(par.test, tok, m._kind_alias):
+            if cur is par.body and _positive_name_test(par.test, tok, ka):
                 return True
+            if cur is par.orelse and _negative_name_test(par.test, tok, ka):
+                return True
+        # guard statements earlier in the same block: `if <not a Name>: <leave>` / `if <a Name>: ... else: <leave>`
+        for field in ("body", "orelse", "finalbody"):
+            blk = getattr(par, field, None)
+            if isinstance(blk, list) and cur in blk:
+                for st in blk[:blk.index(cur)]:
+                    if isinstance(st, ast.If):
+                        if _negative_name_test(st.test, tok, ka) and _leaves(st.body):
+                            return True
+                        if _positive_name_test(st.test, tok, ka) and st.orelse and _leaves(st.orelse):
+                            return True
         if isinstance(par, (ast.FunctionDef, ast.AsyncFunctionDef)):
-            # early exit idiom: `if tok.__class__ is not Name: raise/return` earlier in the body
-            for st in par.body:
-                if getattr(st, "lineno", 0) >= cmp_node.lineno:
-                    break
-                if isinstance(st, ast.If) and isinstance(st.test, ast.UnaryOp) and isinstance(st.test.op, ast.Not) \
-                        and _positive_name_test(st.test.operand, tok, m._kind_alias) and st.body and isinstance(st.body[-1], (ast.Raise, ast.Return)):
-                    return True
-                if isinstance(st, ast.If) and isinstance(st.test, ast.Compare) and isinstance(st.test.ops[0], (ast.IsNot, ast.NotEq)) \
-                        and st.body and isinstance(st.body[-1], (ast.Raise, ast.Return)):
-                    pos = ast.Compare(left=st.test.left, ops=[ast.Is()], comparators=st.test.comparators)
-                    if _positive_name_test(pos, tok, m._kind_alias):
-                        return True
             return False
         cur = par
     return False
